@@ -71,7 +71,10 @@ def read_cases(path: str):
     for blk in _RE_BLOCK.split(text):
         if not blk.strip():
             continue
-        lvl = int(_RE_LVL.search(blk).group(1))
+        m = _RE_LVL.search(blk)
+        if m is None or not _RE_PAR.search(blk) or not _RE_ANS.search(blk):
+            raise ValueError(f"malformed state in {path} (truncated dump?): {blk[:200]!r}")
+        lvl = int(m.group(1))
         if lvl == 0:
             continue
         pm = _RE_PAR.search(blk).group(1)
